@@ -90,9 +90,18 @@ class Rule:
         return cls.from_spec(json_like)
 
     def to_json_like(self, *args, **kwargs):
+        cast = None
+        if self.cast:
+            # write as type names, as accepted by `from_spec`:
+            type_names = {v: k for k, v in CAST_DTYPE_LOOKUP.items()}
+            cast_to = {func: to for (_, to), func in CAST_LOOKUP.items()}
+            cast = {
+                type_names[frm]: type_names[cast_to[func]]
+                for frm, func in self.cast.items()
+            }
         out = {
             "condition": self.condition.to_json_like(),
-            "cast": self.cast,
+            "cast": cast,
             "path": self.path.to_json_like(),
         }
         if "shared_data" in kwargs:
